@@ -51,6 +51,7 @@ func (Prop) Assumptions() []string {
 func (Prop) Run(c *engine.Ctx) {
 	quick := c.Quick()
 	primary := c.Config == "c-race"
+	pureGoBuild = c.Config == "c-race-purego"
 	for _, sc := range allScenarios() {
 		sc := sc
 		if !primary && c.Config != "c-race-purego" && !tierDependent[sc.name] {
